@@ -145,7 +145,7 @@ Definition lookup_res (s : state) (p : nat) : ores :=
   match proc_result s p with
   | Some (RMiss _) => OMiss
   | Some (RGet _ o sz tm) => OEntry o sz tm
-  | Some (RFile _ o sz) => match read_path (st_fs s) (FD o) with Some d => OFile o sz d | None => ONone end
+  | Some (RFile _ o sz (Some d)) => OFile o sz d
   | Some (RBytes _ b) => OBytes b
   | _ => ONone
   end.
